@@ -65,6 +65,10 @@ def run(ctx):
     if fails or len(done) != t:
         vf.violation(ctx, 'concurrent use of one instance: ' + (fails[0] if fails else f'only {len(done)} of {t} threads finished'), {'mode': f'stress {t} {n}', 'output': '\n'.join((fails or lines)[-20:])})
     if dup: vf.violation(ctx, f'values that must be fresh repeat across threads: {dup}', {'mode': f'stress {t} {n}', 'duplicates': dup})
+    # (d) bursts: fresh instances created in their own threads and FIRST used by several threads at once; values pooled over
+    # the instances (a generator that is not ready, or not independent, at the first concurrent use repeats values)
+    import conc
+    conc.burst(ctx, 6 if ctx.quick() else 24, 8, 3 if ctx.quick() else 12)
     ctx.nontrivial = set(ctx.hist) | {f'stress-thread-{i}' for i in range(len(done))}
     ctx.samples = [f'{k}: {" ".join(v) or "(no lock)"}' for k, v in list(sk.items())[:13]]
     ctx.rule = ('lock skeleton of the 13 API methods regenerated from the source; each method run single-threaded under a watchdog, run against a held lock, and in a stress run of T threads x N mixed calls '
